@@ -4,7 +4,7 @@ set -e
 ID=$1; WT=$2
 D=/verif/seeded/$ID
 mkdir -p $D
-git -C $WT diff -- src > $D/patch.diff
+git -C $WT diff -- src examples > $D/patch.diff
 test -s $D/patch.diff || { echo "empty diff"; exit 2; }
 cp $WT/demo_*.py $D/ 2>/dev/null || true
 DEMO=$(ls $WT/demo_*.py | head -1)
